@@ -900,6 +900,75 @@ fn s_multishot_enobufs(k: &dyn Kern) -> Vec<String> {
     t
 }
 
+/// The kernel takes a buffer whenever the ring tail differs from its head, also when the tail it
+/// reads is "behind" the head (what a user-space store of 0 over the tail looks like).
+fn s_pbuf_tail_behind_head(k: &dyn Kern) -> Vec<String> {
+    let mut t = Vec::new();
+    let r = Raw::new(k, 4, BASE, 0).unwrap();
+    let ring_mem = unsafe { libc::mmap(std::ptr::null_mut(), 4096, libc::PROT_READ | libc::PROT_WRITE, libc::MAP_PRIVATE | libc::MAP_ANONYMOUS, -1, 0) } as *mut u8;
+    let mut bufs = [[0u8; 16]; 2];
+    let reg = BufReg { ring_addr: ring_mem as u64, ring_entries: 2, bgid: 3, ..Default::default() };
+    t.push(format!("register pbuf ring -> {}", k.register(r.fd, REGISTER_PBUF_RING, std::ptr::from_ref(&reg).cast(), 1)));
+    let (pr, pw) = pipe();
+    let read_select = |ud: u64| {
+        r.push(|s| {
+            s[0] = OP_READ;
+            s[1] = SQE_BUFFER_SELECT;
+            put32(s, 4, pr as u32);
+            put64(s, 8, u64::MAX);
+            s[40..42].copy_from_slice(&3u16.to_ne_bytes());
+            put64(s, 32, ud);
+        });
+    };
+    let tail = unsafe { &*(ring_mem.add(14) as *const std::sync::atomic::AtomicU16) };
+    unsafe {
+        let e0 = ring_mem as *mut BufRingEntry;
+        (*e0).addr = bufs[0].as_mut_ptr() as u64;
+        (*e0).len = 16;
+        (*e0).bid = 0;
+        let e1 = e0.add(1);
+        (*e1).addr = bufs[1].as_mut_ptr() as u64;
+        (*e1).len = 16;
+        (*e1).bid = 1;
+    }
+    tail.store(2, std::sync::atomic::Ordering::SeqCst);
+    // Both buffers are taken: the kernel's head is 2.
+    for ud in [60u64, 61] {
+        unsafe { libc::write(pw, b"abc".as_ptr().cast(), 3) };
+        read_select(ud);
+        let e = r.enter(1, 0, 0, true);
+        r.sim_complete(Out::Res(3));
+        let _ = r.enter(0, 1, ENTER_GETEVENTS, true);
+        t.push(format!("read+select -> {e} cqes: {}", cq(&r.reap())));
+    }
+    // Head == tail: nothing available.
+    unsafe { libc::write(pw, b"abc".as_ptr().cast(), 3) };
+    read_select(62);
+    let e = r.enter(1, 0, 0, true);
+    r.sim_complete(Out::Res(3));
+    let _ = r.enter(0, 1, ENTER_GETEVENTS, true);
+    t.push(format!("head == tail -> {e} cqes: {}", cq(&r.reap())));
+    // The tail reads 0 (behind the head, 2): the kernel takes entry head & mask = 0 again, and then entry 1.
+    tail.store(0, std::sync::atomic::Ordering::SeqCst);
+    for ud in [63u64, 64] {
+        read_select(ud);
+        let e = r.enter(1, 0, 0, true);
+        r.sim_complete(Out::Res(3));
+        let _ = r.enter(0, 1, ENTER_GETEVENTS, true);
+        t.push(format!("tail 0 behind head -> {e} cqes: {}", cq(&r.reap())));
+        unsafe { libc::write(pw, b"abc".as_ptr().cast(), 3) };
+    }
+    let unreg = BufReg { bgid: 3, ..Default::default() };
+    t.push(format!("unregister -> {}", k.register(r.fd, UNREGISTER_PBUF_RING, std::ptr::from_ref(&unreg).cast(), 1)));
+    unsafe {
+        libc::close(pr);
+        libc::close(pw);
+        libc::munmap(ring_mem.cast(), 4096);
+    }
+    let _ = &mut bufs;
+    t
+}
+
 pub fn scenarios() -> Vec<Scenario> {
     vec![
         Scenario { name: "setup-validation", run: s_setup_validation },
@@ -920,6 +989,7 @@ pub fn scenarios() -> Vec<Scenario> {
         Scenario { name: "accept-multishot", run: s_accept_multishot },
         Scenario { name: "multishot-read-enobufs", run: s_multishot_enobufs },
         Scenario { name: "recvmsg-buffer-select", run: s_recvmsg_select },
+        Scenario { name: "provided-buffers-tail-behind-head", run: s_pbuf_tail_behind_head },
     ]
 }
 
